@@ -302,9 +302,13 @@ func (l *lexer) backup() {
 }
 
 // peek returns but does not consume the next rune in the input.
+// The width of the last rune read is preserved, so that a backup after a peek
+// still undoes the last next and not the peeked rune.
 func (l *lexer) peek() rune {
+	width := l.width
 	r := l.next()
 	l.backup()
+	l.width = width
 	return r
 }
 
